@@ -72,7 +72,7 @@ def _run_variant(ctx, model, d, tag, check_nodes=True):
         name = c["cmd"]
         if name == "EEMSRead":
             col = model["table"]["cols"][c["args"]["InFieldName"]]
-            integer = c["args"].get("DataType") == "Integer"
+            integer = c["args"].get("DataType") in ("Integer", "Positive Integer")
             miss = c["args"].get("MissingVal", c["args"].get("MissingValue"))
             want = []
             for v in col["data"]:
